@@ -125,12 +125,20 @@ func (e *c09RecExp) ExportSpans(_ context.Context, ss []ReadOnlySpan) error {
 }
 func (e *c09RecExp) Shutdown(context.Context) error { return nil }
 
-func c09ExportBody(threads [][]string, res *string) func(x *sched.Exec) {
+// nonBlockingQueue > 0: the batch processor drops on a full queue (the default mode) and its queue
+// has exactly that many slots -- as many as the scenario has sampled spans, and the scenario does
+// not flush: the queue can never be full when a sampled span ends, whatever the worker is doing,
+// unless something other than sampled spans takes up its slots.
+func c09ExportBody(threads [][]string, nonBlockingQueue int, res *string) func(x *sched.Exec) {
 	return func(x *sched.Exec) {
 		ctx := context.Background()
 		exp := &c09RecExp{}
+		bopts := []BatchSpanProcessorOption{WithBlocking(), WithMaxQueueSize(2), WithMaxExportBatchSize(2)}
+		if nonBlockingQueue > 0 {
+			bopts = []BatchSpanProcessorOption{WithMaxQueueSize(nonBlockingQueue), WithMaxExportBatchSize(1)}
+		}
 		tp := NewTracerProvider(WithSampler(c09NameSampler{}),
-			WithSpanProcessor(NewBatchSpanProcessor(exp, WithBlocking(), WithMaxQueueSize(2), WithMaxExportBatchSize(2))))
+			WithSpanProcessor(NewBatchSpanProcessor(exp, bopts...)))
 		tr := tp.Tracer("c09")
 		want := map[string]int{}
 		var wg vsync.WaitGroup
@@ -201,6 +209,7 @@ func TestVerifC09IDGen(t *testing.T) {
 	exps := []scn{
 		{"flush-vs-end", [][]string{{"s1", "Flush"}, {"s2", "r1"}}, 0},
 		{"three-threads", [][]string{{"s1", "d1"}, {"Flush"}, {"r1", "s2"}}, 0},
+		{"dropping-mode-queue-sized-for-the-sampled-spans", [][]string{{"r1", "r2", "s1", "d1", "s2"}}, 2},
 	}
 	ep := p - 1 // executions through a batch processor are ~10x longer than the generator's
 	for _, s := range exps {
@@ -215,7 +224,7 @@ func TestVerifC09IDGen(t *testing.T) {
 			}
 			r.Bound("export_max_preemptions", ep)
 			var res string
-			st := sched.Explore(r, sched.Config{Name: job, MaxP: ep, MaxE: 0, MaxSteps: 6000, Body: c09ExportBody(s.threads, &res), Outcome: func(*sched.Exec) string { return res }})
+			st := sched.Explore(r, sched.Config{Name: job, MaxP: ep, MaxE: 0, MaxSteps: 6000, Body: c09ExportBody(s.threads, s.zeros, &res), Outcome: func(*sched.Exec) string { return res }})
 			t.Logf("%s: execs=%d states=%d outcomes=%d keys=%v", job, st.Execs, st.States, len(st.Outcomes), r.Keys())
 		}
 		for _, s := range scs {
